@@ -16,12 +16,33 @@
 (* The harness uses it to recognise known-finding shapes independently of    *)
 (* the code under test, to aim C14's repetitions, and to report SPEC-DRIFT   *)
 (* where real moq chose something the model does not predict.                *)
-EXTENDS Scope, Json
+EXTENDS Scope, Json, Integers
 
 CONSTANT CaseFile
 Cases == ndJsonDeserialize(CaseFile)
 
 VARIABLE l
+
+(* packages arrive with their path components as characters (last component *)
+(* first); the sanitised forms uniqueName works on are computed here         *)
+PrepPkg(p)  == [path |-> p.path, name |-> p.name, alias |-> p.alias, san |-> [i \in DOMAIN p.comps |-> SanComp(p.comps[i])]]
+PrepPkgs(s) == [i \in DOMAIN s |-> PrepPkg(s[i])]
+
+(* populateImports: the packages a type mentions, in the order the walk      *)
+(* meets them (that order decides who keeps a contested qualifier). p = -1   *)
+(* is the source package, p >= 0 an index into the case's package table.     *)
+RECURSIVE Walk(_), WalkSeq(_)
+Walk(t) == CASE t.k \in {"named", "alias"} -> (IF t.p >= -1 THEN <<t.p>> ELSE <<>>) \o WalkSeq(t.e)   \* the type's package, then its type arguments
+             [] t.k \in {"ptr", "slice", "array", "chan", "struct", "iface"} -> Walk(t.e[1])
+             [] t.k = "map"  -> Walk(t.e[1]) \o Walk(t.e[2])
+             [] t.k = "func" -> WalkSeq(t.e) \o WalkSeq(t.r)
+             [] OTHER -> <<>>
+WalkSeq(ts) == IF ts = <<>> THEN <<>> ELSE Walk(Head(ts)) \o WalkSeq(Tail(ts))
+
+PkgOf(c, p) == PrepPkg(IF p = -1 THEN c.src ELSE c.pkgs[p + 1])
+PrepVar(c, v)  == [nameCs |-> v.nameCs, t |-> v.t, suffix |-> v.suffix,
+                   pkgs |-> LET w == Walk(v.t) IN [i \in DOMAIN w |-> PkgOf(c, w[i])]]
+PrepScopes(c) == [i \in DOMAIN c.scopes |-> [j \in DOMAIN c.scopes[i] |-> PrepVar(c, c.scopes[i][j])]]
 
 (* thread the set of possible registries through the scopes, collecting per *)
 (* scope the set of possible final scopes                                    *)
@@ -37,13 +58,17 @@ Fields(names) == [i \in DOMAIN names |-> names[i]]
 Init == l = 1
 Step == /\ l <= Len(Cases)
         /\ LET c == Cases[l]
-               r == Run({EmptyReg}, c.scopes, c.moqPath, <<>>)
-               F == AddAll(r.regs, c.tail, c.moqPath)
+               scopes == PrepScopes(c)
+               r == Run({EmptyReg}, scopes, c.moqPath, <<>>)
+               F == AddAll(r.regs, PrepPkgs(c.tail), c.moqPath)
                scs == UNION {r.acc[i] : i \in DOMAIN r.acc}
            IN PrintT("PREDICT " \o ToJson([case |-> c.case,
                     diverge |-> CanDiverge(F), dup |-> CanDuplicate(F),
                     crash |-> \E sc \in scs : sc.crashed,
                     nameDup |-> \E sc \in scs : ~sc.crashed /\ HasDupSeq(sc.names),
+                    late |-> \E g \in Good(F) : \E i \in DOMAIN r.acc : \E sc \in r.acc[i] :
+                               ~sc.crashed /\ \E k \in DOMAIN sc.names : \E j \in DOMAIN scopes[i] : \E q \in DOMAIN scopes[i][j].pkgs :
+                                   LET path == scopes[i][j].pkgs[q].path IN path \in DOMAIN g.imp /\ Qual(g.imp[path]) = sc.names[k],
                     nfinals |-> Cardinality(Good(F)),
                     finals |-> {{<<p, Qual(g.imp[p])>> : p \in DOMAIN g.imp} : g \in Good(F)},
                     names |-> [i \in DOMAIN r.acc |-> {sc.names : sc \in {x \in r.acc[i] : ~x.crashed}}]]))
